@@ -87,6 +87,21 @@ def tie_averse_schemes(draw):
     return [[0.0, b1, b2, b3, b4, draw(v)], [t0, t0, 0.0, t3, t3, draw(v)]]
 
 
+@st.composite
+def p_family_schemes(draw):
+    """the three parametrised families of the library (unifying, pseudo-distance, induced measure) with a drawn cost p
+    of creating / breaking a tie, from very cheap ties (p = 1/16) to dear ones (p = 2), times a dyadic factor"""
+    p = draw(st.sampled_from([0.0625, 0.125, 0.25, 0.25, 0.5, 0.75, 1.0, 1.5, 2.0]))
+    fam = draw(st.sampled_from(["unifying", "unifying", "pseudodistance", "induced"]))
+    if fam == "unifying":
+        s = [[0., 1., p, 0., 1., p], [p, p, 0., p, p, 0.]]
+    elif fam == "pseudodistance":
+        s = [[0., 1., p, 0., 1., 0.], [p, p, 0., p, p, 0.]]
+    else:
+        s = [[0., 1., p, 0., 0., 0.], [p, p, 0., 0., 0., 0.]]
+    return scale(s, draw(st.sampled_from(DYADIC_FACTORS)))
+
+
 EXTREME_FACTORS = [2.0 ** -30, 2.0 ** -20, 2.0 ** -10, 2.0 ** 10, 2.0 ** 20]
 
 
@@ -101,7 +116,7 @@ def scaled_schemes(draw):
 def dyadic_schemes():
     """exactly representable penalties: every library comparison is decided on exact values"""
     return st.one_of(free_schemes(), free_schemes(), preset_multiples(), near_presets(), free_schemes(),
-                     preset_multiples(), scaled_schemes())
+                     preset_multiples(), scaled_schemes(), p_family_schemes())
 
 
 def decimal_schemes():
@@ -110,7 +125,7 @@ def decimal_schemes():
 
 def any_schemes():
     return st.one_of(free_schemes(), free_schemes(), preset_multiples(), near_presets(), decimal_schemes(),
-                     free_schemes(), preset_multiples(), scaled_schemes())
+                     free_schemes(), preset_multiples(), scaled_schemes(), p_family_schemes())
 
 
 def scheme_labels(s):
